@@ -382,6 +382,61 @@ def c15_block(repo: Path):
           'def eulerPowers : List (List Nat) := [' + ', '.join(lean_list(r) for r in eu['powers']) + ']', '']
     return s, dict(thin_elems=len(th['elems']), euler_tables=2)
 
+# ---------------------------------------------------------------------------------------------
+# C17: Daubechies coefficient tables of _convolve.cpp
+
+def extract_daubechies(repo: Path):
+    """`const float D2[] = {...}` … `D20`, the `dcoeffs` switch and `ncoeffs = 2*(code + 1)`.
+    Each literal is converted the way the compiler does it (decimal text -> nearest double -> nearest
+    float32) and returned as the exact dyadic rational (mantissa, k) meaning mantissa / 2^k."""
+    import struct
+    from fractions import Fraction
+    src = (repo / 'mahotas' / '_convolve.cpp').read_text()
+    tables = {}
+    for name, body in re.findall(r'const\s+float\s+(D\d+)\s*\[\s*\]\s*=\s*\{(.*?)\}\s*;', src, flags=re.S):
+        vals = []
+        for tok in body.replace('\n', ' ').split(','):
+            tok = tok.strip()
+            if not tok:
+                continue
+            if not re.fullmatch(r'[-+]?(\d+\.?\d*|\.\d+)([eE][-+]?\d+)?', tok):
+                raise TranslationError(f'{name}: cannot parse coefficient literal {tok!r}')
+            f32 = struct.unpack('<f', struct.pack('<f', float(tok)))[0]
+            fr = Fraction(f32)
+            k = fr.denominator.bit_length() - 1
+            if fr.denominator != 1 << k:
+                raise TranslationError(f'{name}: {tok} is not dyadic?')
+            vals.append((fr.numerator, k))
+        tables[name] = vals
+    m = re.search(r'const\s+float\s*\*\s*dcoeffs\s*\(\s*const\s+int\s+code\s*\)\s*\{(.*?)\n\}', src, flags=re.S)
+    if not m:
+        raise TranslationError('dcoeffs() not found')
+    switch = [(int(i), n) for i, n in re.findall(r'case\s+(\d+)\s*:\s*return\s+(D\d+)\s*;', m.group(1))]
+    if not switch or [i for i, _ in switch] != list(range(len(switch))):
+        raise TranslationError('dcoeffs(): case labels are not 0..n-1')
+    for _, n in switch:
+        if n not in tables:
+            raise TranslationError(f'dcoeffs(): table {n} not found')
+    nc = re.findall(r'int\s+ncoeffs\s*=\s*2\s*\*\s*\(\s*code\s*\+\s*1\s*\)\s*;', src)
+    if len(nc) != 2:
+        raise TranslationError('ncoeffs = 2*(code + 1) not found in py_daubechies / py_idaubechies')
+    py = (repo / 'mahotas' / 'convolve.py').read_text()
+    if not re.search(r"_daubechies_codes\s*=\s*\[\('D%s'\s*%\s*ci\)\s*for\s+ci\s+in\s+range\(2,\s*21,\s*2\)\]", py):
+        raise TranslationError("_daubechies_codes = ['D2', 'D4', ... 'D20'] not found in convolve.py")
+    return tables, switch
+
+
+def _c17_block(repo: Path):
+    tables, switch = extract_daubechies(repo)
+    out = ['', '/-! ### C17: Daubechies scaling coefficients of `_convolve.cpp` as exact dyadic rationals',
+           '`(m, k)` stands for `m / 2^k`, the float32 value the compiler stores for the decimal literal. -/']
+    for _, name in switch:
+        out.append(f'def {name} : List (Int × Nat) := [' + ', '.join(f'({m}, {k})' for m, k in tables[name]) + ']')
+    out.append('/-- `dcoeffs(code)`: `code` is the index of `Dxx` in `_daubechies_codes` (`D2` ↦ 0 … `D20` ↦ 9);')
+    out.append('    the kernels use the first `ncoeffs = 2*(code+1)` entries. -/')
+    out.append('def dcoeffs : List (List (Int × Nat)) := [' + ', '.join(n for _, n in switch) + ']')
+    return out, dict(daubechies_tables=len(switch))
+
 
 def lean_list(xs):
     return '[' + ', '.join(str(x) for x in xs) + ']'
@@ -410,11 +465,13 @@ def generate(repo: Path, outdir: Path) -> dict:
     s += lean_texture(tex, fact)
     c15_lines, c15_info = c15_block(repo)
     s += c15_lines
+    c17_lines, c17_info = _c17_block(repo)
+    s += c17_lines + ['']
     s += ['end Mahotas.Generated', '']
     changed = _write_if_changed(outdir / 'Tables.lean', '\n'.join(s))
     return dict(tables_changed=changed, modes=len(py), translate_sizes=len(ts), colour_constants=len(col),
                 directions_2d=len(tex['_2d_deltas']), directions_3d=len(tex['_3d_deltas']), factorials=len(fact),
-                **c15_info)
+                **c15_info, **c17_info)
 
 
 if __name__ == '__main__':
